@@ -148,6 +148,41 @@ fn cases(thorough: bool) -> Vec<Case> {
             }
         }
     }
+    // (i'') every native method taken as a value first - from a proper receiver and from an instance of a
+    // class derived from the built-in class in the language - and called afterwards: through a variable,
+    // through a field of another object, and as `super.m` taken as a value inside a method
+    for (class, recv, methods) in natives() {
+        if ["StringClass", "FiberClass", "ErrorClass", "StopIterClass", "Instance", "Num", "Class"].contains(&class) {
+            continue;
+        }
+        let small = ["nil", "1", "\"s\"", "[1]", "(|| 1)"];
+        for (m, arity) in &methods {
+            let mut arg_tuples: Vec<Vec<&str>> = vec![vec![]];
+            for _ in 0..*arity {
+                arg_tuples = arg_tuples.into_iter().flat_map(|t| small.iter().map(move |v| { let mut u = t.clone(); u.push(*v); u })).collect();
+            }
+            for args in arg_tuples {
+                for derived in [false, true] {
+                    for how in ["variable", "field", "super value"] {
+                        if how == "super value" && !derived {
+                            continue;
+                        }
+                        let decl = if derived {
+                            format!("var D = type({});\n#[constructor(new), derive(D)] class X {{\n  fn i(self) {{ var b = super.{}; return b({}); }}\n}}\nvar recv = X.new();\n", recv, m, args.join(", "))
+                        } else {
+                            format!("var recv = {};\n", recv)
+                        };
+                        let call = match how {
+                            "variable" => format!("var b = recv.{}; var r = b({});", m, args.join(", ")),
+                            "field" => format!("var holder = K.new(); holder.f = recv.{}; var r = holder.f({}); var r2 = (holder.f)({});", m, args.join(", "), args.join(", ")),
+                            _ => "var r = recv.i();".to_string(),
+                        };
+                        out.push(Case { family: "native_taken_as_a_value", cell: format!("{}.{} {} {} ({})", class, m, if derived { "derived" } else { "proper" }, how, args.join(",")), source: wrap(&format!("{}{}", decl, call)), derived_receiver: derived, raw: false });
+                    }
+                }
+            }
+        }
+    }
     // (i') every native reached through `super` from an instance method and from a static method of a class
     // derived from the built-in class: the receiver is then an instance of that class, or the class object
     for (class, recv, methods) in natives() {
@@ -735,7 +770,7 @@ pub fn run(ctx: &Ctx) -> Report {
     report.cov("traces_validated_against_impl", json!(acc.evaluations));
     report.cov("distinct_nontrivial", json!(acc.cells.len()));
     report.cov("exhaustive", json!(true));
-    report.cov("rule", json!("native sweep: every built-in method of every value class (and the class-side methods of String, Fiber, Error, StopIter) on a receiver of the right class and on an instance of a class derived from it, with every argument tuple of the native's arity over a 46-value adversarial pool (43 values plus the receiver itself, a tuple and a vec holding it) (quick tier: a third of the two-argument tuples on derived receivers), plus one argument fewer and one more; every native reached through super from an instance method and from a static method of a class derived from the built-in class; operator sweep: 20 unary constructs x every pool value, 6 binary constructs x every ordered pair, slices over 8x8 bounds; resource grid: recursion depth {1..70} x frame width {1..250} and wide argument lists, the operand stack swept across its limit one slot at a time (3 052 programs: recursion depth 30/31/32 with 2 x 254 pending literal elements per level and 0..762 more at the bottom, also inside a fiber; each must complete or report a catchable `Stack overflow.`, monotonically; and the same overflow left uncaught where a frame is entered straight after a push - plain call, import, for over a user-defined iterable, constructor, method, library callback, fiber, interpolation - with the number of pending values bisected to the interpreter's own limit and every count within 20 of it run: the report is made without a panic), nesting ladders to depth 10^4 for nine data shapes on the checked runner and to 2x10^5 / 10^6 on the optimised runner on a thread with an ordinary 8 MiB stack (tracing, printing, comparing, hashing and dropping data that deep), every uncaught-error program of C17's generator (the error report must not panic), every program of the C08, C06 and C18 generators and every fifth one of the C07 and C05 generators at their quick bounds (about 52k programs; all of them in the thorough tier: whatever a program means, running it does not panic), the loop-exit shapes of C08 (a loop around two try-like constructs, a loop around a try-like construct holding an inner loop followed by a second one, every leaf that leaves or crosses them) at script level inside a loop that repeats them forty times (a slot popped too many or too few per exit runs off the operand stack), 23 self-reference / mutation-during-iteration / fiber misuse programs. oracle: the run ends Ok or with a reported error; never a panic, crash or hang; a failing built-in call wrapped in try/catch reaches the handler with an instance of an error class. distinct = distinct (construct, argument-kind tuple) cells."));
+    report.cov("rule", json!("native sweep: every built-in method of every value class (and the class-side methods of String, Fiber, Error, StopIter) on a receiver of the right class and on an instance of a class derived from it, with every argument tuple of the native's arity over a 46-value adversarial pool (43 values plus the receiver itself, a tuple and a vec holding it) (quick tier: a third of the two-argument tuples on derived receivers), plus one argument fewer and one more; every native reached through super from an instance method and from a static method of a class derived from the built-in class; every native method taken as a value first (from a proper receiver and from an instance of a derived class; through a variable, a field of another object, `super.m` as a value) and called afterwards; operator sweep: 20 unary constructs x every pool value, 6 binary constructs x every ordered pair, slices over 8x8 bounds; resource grid: recursion depth {1..70} x frame width {1..250} and wide argument lists, the operand stack swept across its limit one slot at a time (3 052 programs: recursion depth 30/31/32 with 2 x 254 pending literal elements per level and 0..762 more at the bottom, also inside a fiber; each must complete or report a catchable `Stack overflow.`, monotonically; and the same overflow left uncaught where a frame is entered straight after a push - plain call, import, for over a user-defined iterable, constructor, method, library callback, fiber, interpolation - with the number of pending values bisected to the interpreter's own limit and every count within 20 of it run: the report is made without a panic), nesting ladders to depth 10^4 for nine data shapes on the checked runner and to 2x10^5 / 10^6 on the optimised runner on a thread with an ordinary 8 MiB stack (tracing, printing, comparing, hashing and dropping data that deep), every uncaught-error program of C17's generator (the error report must not panic), every program of the C08, C06 and C18 generators and every fifth one of the C07 and C05 generators at their quick bounds (about 52k programs; all of them in the thorough tier: whatever a program means, running it does not panic), the loop-exit shapes of C08 (a loop around two try-like constructs, a loop around a try-like construct holding an inner loop followed by a second one, every leaf that leaves or crosses them) at script level inside a loop that repeats them forty times (a slot popped too many or too few per exit runs off the operand stack), 23 self-reference / mutation-during-iteration / fiber misuse programs. oracle: the run ends Ok or with a reported error; never a panic, crash or hang; a failing built-in call wrapped in try/catch reaches the handler with an instance of an error class. distinct = distinct (construct, argument-kind tuple) cells."));
     report.cov("bounds", json!({"pool_values": pool().len(), "cases": n}));
     report.cov("by_family", json!(acc.by_family));
     report.cov("outcome_histogram", json!(acc.outcomes));
